@@ -6,7 +6,6 @@ CONSTANT LazyTotal = 2
 INVARIANT TypeOK
 INVARIANT ExcludeWins
 INVARIANT NoIncludeMeansAll
-INVARIANT Monotone
 INVARIANT LazyKeepsBaseExcludes
 INVARIANT StatConsistent
 INVARIANT Export
